@@ -286,7 +286,7 @@ func c14Values(shape string, thorough bool) []c14Vals {
 	hasInt := strings.HasPrefix(shape, "(int")
 	if hasInt {
 		codes = nil
-		for c := 100; c <= 599; c++ {
+		for c := 100; c <= 999; c++ { // everything net/http accepts as a status code
 			codes = append(codes, c)
 		}
 	}
@@ -342,8 +342,8 @@ func c14Run(r *core.Run) {
 	if r.Thorough() {
 		r.SetBudget(10 * time.Minute)
 	}
-	r.Rule = "engine E: every supported return shape x every value (empty, nil, all 256 single bytes, 1 KiB, every status 100..599, nil / errors.New / struct / pointer-receiver errors, nil pointers) x position {first of two handlers, last before the action, application middleware} x {default table, custom ReturnHandler at application scope, at request scope}; oracle = the statement's table, 'wrote nothing' observed as 'the next handler ran'; non-trivial = value that is nil/empty/zero, an error, or a non-200 status"
-	r.Assumptions = []string{"a non-nil pointer to an empty value is not covered by the statement and is asserted neither way (counted)", "status codes outside 100..599 are outside the quantifier"}
+	r.Rule = "engine E: every supported return shape x every value (empty, nil, all 256 single bytes, 1 KiB, every status 100..999, nil / errors.New / struct / pointer-receiver errors, nil pointers) x position {first of two handlers, last before the action, application middleware} x {default table, custom ReturnHandler at application scope, at request scope}; oracle = the statement's table, 'wrote nothing' observed as 'the next handler ran'; non-trivial = value that is nil/empty/zero, an error, or a non-200 status"
+	r.Assumptions = []string{"a non-nil pointer to an empty value is not covered by the statement and is asserted neither way (counted)", "status codes outside 100..999 (what net/http accepts) are outside the quantifier"}
 	positions := []string{"first-of-two", "last", "middleware"}
 	customs := []string{"", "app", "request", "request-late"}
 	type job struct{ shape, pos, custom string }
